@@ -21,7 +21,7 @@ except Exception: pass
 print(' '.join(ids[:1]))
 P
 )
-  git -C /repo apply $d/patch.diff || { echo "$s: patch does not apply (code moved) -- SKIP"; continue; }
+  git -C /repo apply /verif/$d/patch.diff || { echo "$s: patch does not apply (code moved) -- SKIP"; continue; }
   for id in $ids; do
     out=$(./check $id 2>&1); rc=$?
     nv=$(echo "$out" | grep -c '^VIOLATION')
